@@ -25,6 +25,7 @@ Definition stream_post {LY : Layout} (T i : nat) (sm : memory) (cells : list Z) 
 Class LayoutOk {LY : Layout} : Prop := {
   prog_conc : forall f fn, lget Src_conc.functions f = Some fn -> lget Lprog f = Some fn;
   sig0_length : forall T, List.length (Lsig0 T) = T;
+  out0_bytes : Forall (fun z => 0 <= z < 256)%Z Lout0;
   (* ---- reads ---- *)
   mget_sum : forall c T pad d, mget (mem_of c T pad d) "sum" = Some (cell U32 (16 * Z.of_nat c));
   mget_live : forall c T pad d, mget (mem_of c T pad d) "live_num" = Some (cell U8 (Z.of_nat (d_live d)));
